@@ -31,7 +31,7 @@ add("C08","exploration","differential property-based testing: generated graphs x
 add("C11","exploration","metamorphic property-based testing (ternary-logic partitioning, count, DISTINCT, SKIP/LIMIT windows, UNION) in five languages",
     "Relations between results of related queries on one database: Q = Q∧p ⊎ Q∧¬p ⊎ Q∧(p IS NULL); count = rows; DISTINCT = set of rows; SKIP s LIMIT n = slice of the ordered result (graphs of 2047/2048/2049/4097 nodes cross the chunk boundary; a second window sub-check runs filtered scans over 2049-6500 nodes with bounds around the chunk size, ordered and unordered, returning a property or the node itself); UNION ALL = concatenation.",
     "No reference evaluator: only the relations are asserted; an Err is 'cannot express'.","DESIGN.md §4 C11")
-add("C15","exploration","property-based round-trip testing (proptest) of every codec against identity / naive reference",
+add("C15","exploration","property-based round-trip testing (proptest) of every codec against identity / naive reference; thorough tier adds a coverage-guided libFuzzer campaign on every from_bytes whose kept inputs are judged by the accessor-consistency oracle",
     "Generated sequences per codec (boundary lengths, widths 0..=64, extremes) checked for decode∘encode = id, random access = full decode, from_bytes∘to_bytes = id, compressed = uncompressed property reads, succinct structures vs naive rank/select. Exploration: absence is not established.",
     "Trusts the harness' naive reference implementations; tiered-storage epoch_store.rs is not built (non-default feature).","DESIGN.md §4 C15")
 
@@ -44,7 +44,7 @@ add("C18","exploration","model-based property testing of HNSW histories + refere
 add("C19","exploration","property-based testing of every bundled algorithm against brute-force definitions on generated multigraphs",
     "Directed multigraphs (self-loops, parallel/anti-parallel edges, components, weight regimes) x all sources/targets: shortest paths (4 algorithms agree, minimal, paths real), components, topological sort, MST (Kruskal/Prim), max-flow = min-cut, min-cost flow, traversals, triangles/k-core/bridges/articulation, PageRank/closeness/betweenness, ShortestPathOperator, community partitions.",
     "Conventions (undirected reading, default weight, simple-graph bridges) are adopted from the code's documentation.","DESIGN.md §4 C19")
-add("C07","exploration","round-trip / differential property testing of export-import, save-open, to_memory + exhaustive truncations and bit flips of small snapshots judged by an independent format reader (worker process)",
+add("C07","exploration","round-trip / differential property testing of export-import, save-open, to_memory + exhaustive truncations and bit flips of small snapshots judged by an independent format reader (worker process); thorough tier adds a coverage-guided libFuzzer campaign on import_snapshot whose kept inputs are judged by the same oracle",
     "Graphs reached by generated mutation histories (sparse ids, every value type, committed session transactions) are exported/imported, saved/opened and copied to memory: dumps equal the model and the source, a battery of queries answers the same, export is deterministic, the source is unchanged, next ids are fresh. Hostile bytes (every truncation, every single-bit flip of 20+ small snapshots; generated surgery on lengths/ids/discriminants, splices, deep nesting) are imported in a child process: Ok exactly when an independent reader of the byte format accepts them, never a panic/abort/hang.",
     "Trusts the harness' own snapshot-format reader; two import-robustness defects (unchecked declared string length, unbounded nesting) are listed findings.","DESIGN.md §4 C07")
 add("C09","exploration","differential property testing: every generated (graph, query) under all 8 optimizer switch sets x 3 statistics states x factorized on/off",
@@ -95,7 +95,7 @@ def main():
             m['checks'].append({
               "property_id":i,
               "quick_cmd":f"./check {i} --tier quick",
-              "thorough_cmd":("./check_c12_thorough.sh" if i=="C12" else f"./check {i} --tier thorough"),
+              "thorough_cmd":({"C12":"./check_c12_thorough.sh","C07":"./check_c07_thorough.sh","C15":"./check_c15_thorough.sh"}.get(i, f"./check {i} --tier thorough")),
               "evidence_file":f"/verif/evidence/{i}.json",
               "replay_cmd_template":f"./check {i} --replay {{path}}",
               "engine":"vcheck",
